@@ -3,6 +3,7 @@
   Property theorems only; helper lemmas live in CC/Threefish/Lemmas.lean.
 -/
 import CC.Threefish.Lemmas
+import CC.Threefish.Src
 namespace CC.Thm.C09
 open CC CC.Threefish CC.Threefish.Model
 
@@ -76,5 +77,85 @@ example : Model.encrypt .unrolled tf1024 ((List.range 128).map fun i => BitVec.o
     = Spec.threefish 16 ((List.range 128).map fun i => BitVec.ofNat 8 (0x10 + i))
       0x0706050403020100#64 0x0f0e0d0c0b0a0908#64 ((List.range 128).map fun i => BitVec.ofNat 8 (0xff - i)) :=
   threefish_conforms _ _ (by simp) _ _ _ _
+
+/-- **Source tie.**  `mix` and `inv_mix` of block-ciphers/threefish/src/lib.rs, as TRANSLATED from the Rust source on
+    every run (tools/inventory_kernels.py → `CC.Gen.Kernels`), equal the model's `mix` / `invMix`; `C240`, the
+    rotation tables `R_256/512/1024`, the word permutations `P_256/512/1024` of consts.rs equal the model's; the
+    three `impl_threefish!` invocations (rounds, words, rotation table, permutation) are `tf256`, `tf512`, `tf1024`.
+    Individual facts: `CC.Src.src_threefish_*` (lean/CC/Threefish/Src.lean).  The macro body (key schedule, round
+    loops) is not translated; it stays tied by the differential correspondence. -/
+theorem source_kernels_match :
+    CC.Gen.Kernels.threefish_errors = [] ∧
+    (mix = fun r x => CC.Gen.Kernels.threefish_mix r x.1 x.2) ∧
+    (invMix = fun r y => CC.Gen.Kernels.threefish_inv_mix r y.1 y.2) ∧
+    C240 = CC.Gen.Kernels.threefish_C240 ∧
+    R_256 = CC.Gen.Kernels.threefish_R_256 ∧ R_512 = CC.Gen.Kernels.threefish_R_512 ∧
+    R_1024 = CC.Gen.Kernels.threefish_R_1024 ∧
+    P_256 = CC.Gen.Kernels.threefish_P_256 ∧ P_512 = CC.Gen.Kernels.threefish_P_512 ∧
+    P_1024 = CC.Gen.Kernels.threefish_P_1024 ∧
+    (CC.Gen.Kernels.threefish_impl_threefish.map
+        (fun r => (r.1, (⟨r.2.1, r.2.2.1, CC.Src.tfRot r.2.2.2.2.1, CC.Src.tfPerm r.2.2.2.2.2⟩ : Params)))
+      = [("Threefish256", tf256), ("Threefish512", tf512), ("Threefish1024", tf1024)] ∧
+     CC.Gen.Kernels.threefish_impl_threefish.map (fun r => r.2.2.2.1) = [8 * tf256.nw, 8 * tf512.nw, 8 * tf1024.nw]) :=
+  ⟨CC.Src.src_threefish_clean, CC.Src.src_threefish_mix, CC.Src.src_threefish_inv_mix, CC.Src.src_threefish_C240,
+   CC.Src.src_threefish_R_256, CC.Src.src_threefish_R_512, CC.Src.src_threefish_R_1024,
+   CC.Src.src_threefish_P_256, CC.Src.src_threefish_P_512, CC.Src.src_threefish_P_1024,
+   CC.Src.src_threefish_instances⟩
+
+/-- **Source tie, macro body.**  The body of `impl_threefish!` for the three instantiations, as TRANSLATED from the Rust on
+    every run (tools/inventory_kernels_code.py → `CC.Gen.Kernels`): the key schedule `with_tweak` (loops unrolled: every
+    subkey word is one expression of the key words and the tweak), `encrypt_block` and `decrypt_block` (bytes → bytes:
+    `read_u64v_le`, the round loops as `List.foldl` over `List.range`, `write_u64v_le`) in BOTH shapes of `unroll8!` /
+    `unroll8_rev!` (default and feature `no_unroll`) equal the model's `withTweak`, `encryptBlock`, `decryptBlock`.
+    Every index of the macro body is proved in range by the translator's interval analysis.
+    Individual facts: `CC.Src.src_threefish*` (lean/CC/Threefish/Src.lean). -/
+theorem source_code_match :
+    CC.Gen.Kernels.threefish_errors = [] ∧
+    (∀ (key : List (BitVec 8)) (t0 t1 : BitVec 64),
+      withTweak tf256 key t0 t1 = CC.Gen.Kernels.threefish256_with_tweak key t0 t1) ∧
+    (∀ (sk : List (List (BitVec 64))) (block : List (BitVec 8)),
+      encryptBlock .unrolled tf256 sk block = CC.Gen.Kernels.threefish256_encrypt_block sk block) ∧
+    (∀ (sk : List (List (BitVec 64))) (block : List (BitVec 8)),
+      encryptBlock .loop tf256 sk block = CC.Gen.Kernels.threefish256_encrypt_block_no_unroll sk block) ∧
+    (∀ (sk : List (List (BitVec 64))) (block : List (BitVec 8)),
+      decryptBlock .unrolled tf256 sk block = CC.Gen.Kernels.threefish256_decrypt_block sk block) ∧
+    (∀ (sk : List (List (BitVec 64))) (block : List (BitVec 8)),
+      decryptBlock .loop tf256 sk block = CC.Gen.Kernels.threefish256_decrypt_block_no_unroll sk block) ∧
+    (∀ (key : List (BitVec 8)) (t0 t1 : BitVec 64),
+      withTweak tf512 key t0 t1 = CC.Gen.Kernels.threefish512_with_tweak key t0 t1) ∧
+    (∀ (sk : List (List (BitVec 64))) (block : List (BitVec 8)),
+      encryptBlock .unrolled tf512 sk block = CC.Gen.Kernels.threefish512_encrypt_block sk block) ∧
+    (∀ (sk : List (List (BitVec 64))) (block : List (BitVec 8)),
+      encryptBlock .loop tf512 sk block = CC.Gen.Kernels.threefish512_encrypt_block_no_unroll sk block) ∧
+    (∀ (sk : List (List (BitVec 64))) (block : List (BitVec 8)),
+      decryptBlock .unrolled tf512 sk block = CC.Gen.Kernels.threefish512_decrypt_block sk block) ∧
+    (∀ (sk : List (List (BitVec 64))) (block : List (BitVec 8)),
+      decryptBlock .loop tf512 sk block = CC.Gen.Kernels.threefish512_decrypt_block_no_unroll sk block) ∧
+    (∀ (key : List (BitVec 8)) (t0 t1 : BitVec 64),
+      withTweak tf1024 key t0 t1 = CC.Gen.Kernels.threefish1024_with_tweak key t0 t1) ∧
+    (∀ (sk : List (List (BitVec 64))) (block : List (BitVec 8)),
+      encryptBlock .unrolled tf1024 sk block = CC.Gen.Kernels.threefish1024_encrypt_block sk block) ∧
+    (∀ (sk : List (List (BitVec 64))) (block : List (BitVec 8)),
+      encryptBlock .loop tf1024 sk block = CC.Gen.Kernels.threefish1024_encrypt_block_no_unroll sk block) ∧
+    (∀ (sk : List (List (BitVec 64))) (block : List (BitVec 8)),
+      decryptBlock .unrolled tf1024 sk block = CC.Gen.Kernels.threefish1024_decrypt_block sk block) ∧
+    (∀ (sk : List (List (BitVec 64))) (block : List (BitVec 8)),
+      decryptBlock .loop tf1024 sk block = CC.Gen.Kernels.threefish1024_decrypt_block_no_unroll sk block) :=
+  ⟨CC.Src.src_threefish_clean,
+   CC.Src.src_threefish256_with_tweak,
+   CC.Src.src_threefish256_encrypt_block,
+   CC.Src.src_threefish256_encrypt_block_no_unroll,
+   CC.Src.src_threefish256_decrypt_block,
+   CC.Src.src_threefish256_decrypt_block_no_unroll,
+   CC.Src.src_threefish512_with_tweak,
+   CC.Src.src_threefish512_encrypt_block,
+   CC.Src.src_threefish512_encrypt_block_no_unroll,
+   CC.Src.src_threefish512_decrypt_block,
+   CC.Src.src_threefish512_decrypt_block_no_unroll,
+   CC.Src.src_threefish1024_with_tweak,
+   CC.Src.src_threefish1024_encrypt_block,
+   CC.Src.src_threefish1024_encrypt_block_no_unroll,
+   CC.Src.src_threefish1024_decrypt_block,
+   CC.Src.src_threefish1024_decrypt_block_no_unroll⟩
 
 end CC.Thm.C09
